@@ -458,6 +458,7 @@ def run(ctx):
                     break   # ordered choice: the first literal that matches is taken
             ctx.inst("C10.R3", "postfix=%s~infix=%s#unspaced" % (p, n2), alt_ok,
                      "the look-ahead of %s refuses %r; `x%sy` then %s" % (p, l2, joined, "reads as another operator" if alt_ok else "is a parse error although `x%s %s y` is a program" % (pl, l2)), "blots-core/src/grammar.pest")
+    dot_needs_digit(ctx, "C10.R3", G)
     # prefix literals vs infix: prefix_usage is tried only at operand start, no shadowing possible; recorded
     # ---------------- R4 keyword guards
     ctx.rule("C10.R4", "every word-like literal that is tried where an identifier is also admissible is followed by !identifier_rest or mandatory whitespace", floor=8)
@@ -842,3 +843,42 @@ def binding_levels_rule(ctx, rid, core, rows):
     ctx.inst(rid, "build_pratt_parser#nothing-between-infix-levels", not inside, "prefix / postfix registrations inside the loop that registers the infix groups: %s" % (inside or "none"), "blots-core/src/precedence.rs")
 
     return ok, why, tail
+
+
+def dot_needs_digit(ctx, rid, G):
+    """inside a number literal a `.` is always followed by at least one digit: otherwise the literal swallows the dot of a following
+    dot-prefixed comparison or field access (`5.==x` would read as `5. == x`)"""
+    rules = [r for r in ("number", "decimal_number", "hex_number", "binary_number", "integer") if r in G.rules]
+    # everything reachable from `number` through silent rules
+    seen, st = set(), ["number"] if "number" in G.rules else []
+    while st:
+        r = st.pop()
+        if r in seen or r not in G.rules:
+            continue
+        seen.add(r)
+        st += [x for x in G.refs(G.expr(r)) if x in G.rules]
+    bad = []
+    def maximal_seqs(e, parent_is_seq=False):
+        if not isinstance(e, dict):
+            return
+        if e["k"] == "seq" and not parent_is_seq:
+            yield e
+        for k_ in ("a", "b", "e"):
+            if k_ in e and isinstance(e[k_], dict):
+                yield from maximal_seqs(e[k_], e["k"] == "seq")
+    for r in sorted(seen):
+        for e in maximal_seqs(G.expr(r)):
+            if e["k"] == "seq":
+                parts = G.seq(e)
+                for i_, p_ in enumerate(parts):
+                    if p_["k"] == "str" and p_["v"] == "." and i_ + 1 < len(parts):
+                        nxt = parts[i_ + 1]
+                        try:
+                            nullable = G.nullable(nxt)
+                        except Exception:
+                            nullable = None
+                        if nullable:
+                            bad.append("%s: `.` followed by an optional part" % r)
+                    if p_["k"] == "str" and p_["v"] == "." and i_ + 1 == len(parts):
+                        bad.append("%s: `.` at the end of the sequence" % r)
+    ctx.inst(rid, "number#dot-needs-digit", not bad, "rules reachable from `number`: %s; a `.` that need not be followed by a digit: %s" % (sorted(seen), sorted(set(bad)) or "none"), "blots-core/src/grammar.pest")
